@@ -57,6 +57,284 @@ CLEAN_KEYS = ['k', 'a', 'n', 'seq', '~', 'aaaa', 'aaaaa1', '~~', '~a1~', 'id', '
 BAD_KEYS = ['@', '__class__', 'x"@', '\\e', '@', '__class__']
 
 
+# --------------------------------------------------------------------------- code-point table
+#
+# Every class of code point that a JSON string can carry (RFC 8259: any Unicode scalar value; the
+# text is UTF-8, so lone surrogates are not representable and the real pack() refuses them with
+# UnicodeEncodeError - they stay outside, see ASSUMPTIONS).  Per class: `ranges` is the extent the
+# random generator draws from, `sweep` the code points the deterministic sweep visits (the whole
+# class when it is small, its edges and well-known members otherwise).
+
+
+def _span(*pairs):
+    return [cp for lo, hi in pairs for cp in range(lo, hi + 1)]
+
+
+CP_TABLE = {
+    # class: (ranges, sweep)
+    'c0': ([(0x00, 0x1F)], _span((0x00, 0x1F))),
+    'del': ([(0x7F, 0x7F)], [0x7F]),
+    'c1': ([(0x80, 0x9F)], _span((0x80, 0x9F))),
+    'linesep': ([(0x2028, 0x2029)], [0x2028, 0x2029]),
+    'uspace': ([(0xA0, 0xA0), (0x1680, 0x1680), (0x2000, 0x200A), (0x202F, 0x202F), (0x205F, 0x205F),
+                (0x3000, 0x3000)],
+               [0xA0, 0x1680, 0x2000, 0x2003, 0x200A, 0x202F, 0x205F, 0x3000]),
+    'format': ([(0xAD, 0xAD), (0x600, 0x605), (0x61C, 0x61C), (0x6DD, 0x6DD), (0x70F, 0x70F), (0x180E, 0x180E),
+                (0x200B, 0x200F), (0x202A, 0x202E), (0x2060, 0x2064), (0x2066, 0x206F), (0xFEFF, 0xFEFF),
+                (0xFFF9, 0xFFFB), (0x110BD, 0x110BD), (0x1D173, 0x1D17A), (0xE0001, 0xE0001), (0xE0020, 0xE007F)],
+               [0xAD, 0x600, 0x61C, 0x180E, 0x200B, 0x200C, 0x200D, 0x200E, 0x200F, 0x202A, 0x202E, 0x2060,
+                0x2064, 0x2066, 0x2069, 0xFEFF, 0xFFF9, 0xFFFB, 0x1D173, 0xE0001, 0xE0020, 0xE007F]),
+    'combining': ([(0x300, 0x36F), (0x483, 0x489), (0x591, 0x5BD), (0x64B, 0x65F), (0x93C, 0x93C), (0xE31, 0xE31),
+                   (0x1DC0, 0x1DFF), (0x20D0, 0x20F0), (0x3099, 0x309A), (0xFE00, 0xFE0F), (0xFE20, 0xFE2F),
+                   (0xE0100, 0xE01EF)],
+                  [0x300, 0x301, 0x308, 0x327, 0x34F, 0x36F, 0x489, 0x5BD, 0x64B, 0x93C, 0xE31, 0x1DC0, 0x20D0,
+                   0x20E3, 0x3099, 0xFE00, 0xFE0F, 0xFE20, 0xE0100, 0xE01EF]),
+    'nonchar': ([(0xFDD0, 0xFDEF), (0xFFFE, 0xFFFF)] + [(p * 0x10000 + 0xFFFE, p * 0x10000 + 0xFFFF)
+                                                      for p in range(1, 17)],
+                [0xFDD0, 0xFDEF, 0xFFFE, 0xFFFF, 0x1FFFE, 0x1FFFF, 0x8FFFE, 0xEFFFF, 0x10FFFE, 0x10FFFF]),
+    'specials': ([(0xFFFC, 0xFFFD)], [0xFFFC, 0xFFFD]),
+    'private': ([(0xE000, 0xF8FF), (0xF0000, 0xFFFFD), (0x100000, 0x10FFFD)],
+                [0xE000, 0xE0B0, 0xF8FF, 0xF0000, 0xFFFFD, 0x100000, 0x10FFFD]),
+    'astral': ([(0x10000, 0x1FFFD), (0x20000, 0x2FFFD), (0x30000, 0x3FFFD), (0xE0000, 0xE0000),
+                (0xE0200, 0xEFFFD)],
+               [0x10000, 0x103FF, 0x1D4B3, 0x1F1E6, 0x1F3FB, 0x1F468, 0x1F600, 0x1FFFD, 0x20000, 0x2FA1D,
+                0x2FFFD, 0x30000, 0x3134A, 0x3FFFD, 0xE0000, 0xEFFFD]),
+    # digits and numerics beyond ASCII (the run marker ~cN~ is read back with a digit pattern)
+    'udigit': ([(0x660, 0x669), (0x6F0, 0x6F9), (0x966, 0x96F), (0xE50, 0xE59), (0xFF10, 0xFF19),
+                (0x1D7CE, 0x1D7FF), (0xB2, 0xB3), (0xB9, 0xB9), (0x2460, 0x2473), (0x2150, 0x215F)],
+               [0x660, 0x664, 0x669, 0x6F0, 0x966, 0xE50, 0xFF10, 0xFF14, 0xFF19, 0x1D7CE, 0x1D7FF, 0xB2, 0xB9,
+                0x2460, 0x2155]),
+    # compatibility look-alikes of the characters the encoding uses (~ \ " @ { } [ : e) and letters whose
+    # case / normal form is another string
+    'lookalike': ([(0xFF01, 0xFF0F), (0xFF1A, 0xFF5E), (0x2018, 0x201F), (0x2DC, 0x2DC), (0x223C, 0x223C),
+                   (0xFE50, 0xFE6B)],
+                  [0xFF5E, 0x2DC, 0x223C, 0x301C, 0xFF3C, 0xFE68, 0x2216, 0xFF02, 0x201C, 0x201D, 0x2033, 0xFF20,
+                   0xFE6B, 0xFF5B, 0xFF5D, 0xFF3B, 0xFF1A, 0xFF45, 0x212F, 0xFF46, 0x212A, 0x130, 0x131, 0xDF,
+                   0x1E9E, 0xFB01, 0x3A3, 0x3C2]),
+    # plain letters of the BMP, the last scalar before and the first after the surrogate block
+    'bmp': ([(0xA1, 0xAC), (0xAE, 0x2FF), (0x370, 0x482), (0x3041, 0x3096), (0x4E00, 0x9FFF), (0xAC00, 0xD7FF)],
+            [0xA1, 0xE9, 0xFF, 0x100, 0x17F, 0x3A9, 0x416, 0x5D0, 0x627, 0x905, 0xE01, 0x3042, 0x4E00, 0x9FFF,
+             0xAC00, 0xD7A3, 0xD7FF]),
+}
+CP_CLASSES = tuple(CP_TABLE)
+CP_SWEEP = [(cls, cp) for cls, (_, sweep) in CP_TABLE.items() for cp in sweep]     # order is part of the plan
+
+
+def _cls_regex(ranges, sweep):
+    parts = [(lo, hi) for lo, hi in ranges] + [(cp, cp) for cp in sweep]
+    return re.compile('[' + ''.join(f'\\U{lo:08x}-\\U{hi:08x}' if lo != hi else f'\\U{lo:08x}'
+                                    for lo, hi in parts) + ']')
+
+
+CP_CLASS_RES = {cls: _cls_regex(r, s) for cls, (r, s) in CP_TABLE.items()}
+_CP_ANY = re.compile(r'[^\x20-\x7e]')
+
+
+def cp_classes(to, data) -> set[str]:
+    """the code-point classes present in the recipient, the keys and the string values"""
+    out = set()
+    for s in list(strings_of(data)) + ([to] if isinstance(to, str) else []):
+        if _CP_ANY.search(s):
+            for cls, rx in CP_CLASS_RES.items():
+                if cls not in out and rx.search(s):
+                    out.add(cls)
+    return out
+
+
+def cp_where(to, data, rx=_CP_ANY) -> set[str]:
+    """where a character beyond printable ASCII sits: recipient / key / value / at depth >= 3"""
+    out = set()
+    if isinstance(to, str) and rx.search(to):
+        out.add('recipient')
+
+    def walk(v, d):
+        if isinstance(v, str):
+            if rx.search(v):
+                out.add('value')
+                if d >= 3:
+                    out.add('value_depth3')
+        elif isinstance(v, list):
+            for x in v:
+                walk(x, d + 1)
+        elif isinstance(v, dict):
+            for k, x in v.items():
+                if rx.search(k):
+                    out.add('key')
+                    if d >= 2:
+                        out.add('key_depth3')
+                walk(x, d + 1)
+    walk(data, 0)
+    return out
+
+
+# The contexts a code point c is put in: alone, in runs of its own (the run marker then carries c itself),
+# and next to every character the encoding layers give a meaning to (RLE: tilde, digits, runs; tty: ESC,
+# backslash, e, CSI tails; JSON: quote, backslash, punctuation; class escaping: "@": / __class__; fromjson: f{).
+# (group, name, template); `{c}` is the code point.  The last group holds text the UNCHANGED tree is known
+# not to round-trip (finding roundtrip/tty:literal-backslash-e): those cases are driven and classified, and
+# must keep shrinking to that mechanism.
+CP_CONTEXTS = [
+    ('alone', 'alone', '{c}'),
+    ('alone', 'inside_word', 'x{c}y'),
+    ('alone', 'start_of_text', '{c}word'),
+    ('alone', 'end_of_text', 'word{c}'),
+    ('run', 'pair', '{c}{c}'),
+    ('run', 'run3', '{c}{c}{c}'),
+    ('run', 'run4', '{c}{c}{c}{c}'),
+    ('run', 'run5_in_text', 'a{c}{c}{c}{c}{c}b'),
+    ('run', 'run12', '{c}' * 12),
+    ('run', 'run4_then_digit', '{c}{c}{c}{c}1'),
+    ('run', 'digit_then_run5', '12{c}{c}{c}{c}{c}'),
+    ('run', 'run4_between_tildes', '~{c}{c}{c}{c}~'),
+    ('tilde', 'after_tilde', '~{c}'),
+    ('tilde', 'before_tilde', '{c}~'),
+    ('tilde', 'between_tildes', '~{c}~'),
+    ('tilde', 'in_tilde_run', '~~~~{c}~~~~~'),
+    ('tilde', 'marker_text_of_its_run', '~{c}4~'),
+    ('tilde', 'in_count_of_marker_text', '~a{c}~'),
+    ('tilde', 'in_count_of_marker_text2', '~a1{c}2~'),
+    ('digit', 'after_digit', '7{c}'),
+    ('digit', 'before_digit', '{c}7'),
+    ('digit', 'between_digits', '10{c}24'),
+    ('run_neighbour', 'after_run', 'aaaa{c}'),
+    ('run_neighbour', 'before_run', '{c}aaaa'),
+    ('run_neighbour', 'between_runs', 'aaaaa{c}bbbb'),
+    ('run_neighbour', 'between_digit_runs', '1111{c}00000'),
+    ('run_neighbour', 'between_space_runs', '     {c}    '),
+    ('run_neighbour', 'between_nonascii_runs', 'éééé{c}😀😀😀😀'),
+    ('esc', 'after_esc', '\x1b{c}'),
+    ('esc', 'before_esc', '{c}\x1b'),
+    ('esc', 'inside_csi', '\x1b[{c}m'),
+    ('esc', 'before_csi_tail', '{c}[31m'),
+    ('esc', 'sgr_written_with_it', '{c}31m red {c}0m'),
+    ('esc', 'before_e', '{c}e'),
+    ('esc', 'before_e_bracket', '{c}e[1m'),
+    ('esc', 'after_escape_text', '\\u001b{c}'),
+    ('quote', 'after_quote', '"{c}'),
+    ('quote', 'before_quote', '{c}"'),
+    ('quote', 'quoted', '"{c}"'),
+    ('quote', 'single_quoted', "'{c}'"),
+    ('backslash', 'after_backslash', '\\{c}'),
+    ('backslash', 'before_backslash', '{c}\\'),
+    ('backslash', 'between_double_backslashes', '\\\\{c}\\\\'),
+    ('backslash', 'after_escape_n_text', '\\n{c}\\u'),
+    ('punct', 'in_braces', '{{{c}}}'),
+    ('punct', 'in_brackets', '[{c}]'),
+    ('punct', 'json_text', '{{"k":"{c}"}}'),
+    ('punct', 'around_line_breaks', '\n{c}\r\n{c}'),
+    ('punct', 'envelope_text', '{{"hash":"0000","data":{c}}}'),
+    ('marker', 'after_at_marker', '"@":{c}'),
+    ('marker', 'inside_at_marker', '"@{c}":'),
+    ('marker', 'after_class_marker', '__class__{c}'),
+    ('marker', 'inside_class_marker', '"__class__{c}":'),
+    ('marker', 'f_brace_not_first', '{c}f{{x}}'),
+    ('known_bad', 'before_literal_backslash_e', '{c}\\e'),
+]
+CP_CLEAN_CONTEXTS = [x for x in CP_CONTEXTS if x[0] != 'known_bad']
+CP_CTX_GROUPS = tuple(dict.fromkeys(g for g, _, _ in CP_CONTEXTS))
+
+
+def cp_text(template, c):
+    """the template with {c} replaced by the code point ({{ and }} are literal braces)"""
+    out, i = [], 0
+    while i < len(template):
+        if template.startswith('{c}', i):
+            out.append(c)
+            i += 3
+        elif template.startswith('{{', i) or template.startswith('}}', i):
+            out.append(template[i])
+            i += 2
+        else:
+            out.append(template[i])
+            i += 1
+    return ''.join(out)
+
+
+# where the text goes: recipient, the payload itself, list elements, dict values and dict KEYS down to
+# depth 4, the same text in several places of one packet
+CP_POSITIONS = [
+    ('recipient', lambda s: (s, {'n': 1})),
+    ('data', lambda s: (None, s)),
+    ('list_element', lambda s: ('r', ['a', s, 1])),
+    ('dict_value', lambda s: ('r', {'k': s})),
+    ('dict_key', lambda s: (None, {s: 1})),
+    ('value_depth4', lambda s: ('worker-1', {'a': [{'b': {'c': s}}]})),
+    ('key_depth3', lambda s: ('r', [{'a': {s: [None]}}])),
+    ('key_and_value', lambda s: (None, {s: s})),
+    ('recipient_and_data', lambda s: (s, [s, {s: s}])),
+    ('mixed_with_runs', lambda s: ('all', {'pre': 'aaaa~1', s + 'k': [s + '~', 1.5, {'q': '~~' + s}]})),
+]
+
+
+def cp_sweep_plan(seed, shard, of, every_position):
+    """the sweep cases of one shard: [(cls, cp, group, ctx name, position name, to, data)].
+
+    A code point belongs to exactly one shard (its index in CP_SWEEP mod `of`).  Each is put in EVERY
+    context; the position rotates with (code point, context, seed) unless every_position (thorough).
+    """
+    out = []
+    npos = len(CP_POSITIONS)
+    for i, (cls, cp) in enumerate(CP_SWEEP):
+        if i % of != shard:
+            continue
+        c = chr(cp)
+        for j, (group, name, template) in enumerate(CP_CONTEXTS):
+            s = cp_text(template, c)
+            if every_position and group != 'known_bad':
+                ps = range(npos)
+            else:
+                ps = [(i * 7 + j * 3 + seed) % npos]
+            for p in ps:
+                pname, build = CP_POSITIONS[p]
+                to, data = build(s)
+                out.append((cls, cp, group, name, pname, to, data))
+    return out
+
+
+_CP_STRINGS = None
+
+
+def cp_strings():
+    """every clean (code point x context) text, in plan order (pads of the queue workloads)"""
+    global _CP_STRINGS  # noqa: PLW0603
+    if _CP_STRINGS is None:
+        _CP_STRINGS = [cp_text(t, chr(cp)) for _, cp in CP_SWEEP for _, _, t in CP_CLEAN_CONTEXTS]
+    return _CP_STRINGS
+
+
+def wide_pad(k: int) -> str:
+    """deterministic text from the code-point table for record number k of a queue workload"""
+    ss = cp_strings()
+    return ss[(k * 2654435761) % len(ss)]
+
+
+def gen_wide_char(rng):
+    """one code point: class uniformly, then uniformly over the class's whole extent"""
+    ranges, sweep = CP_TABLE[rng.choice(CP_CLASSES)]
+    if rng.random() < 0.3:
+        return chr(rng.choice(sweep))
+    lo, hi = rng.choice(ranges)
+    return chr(rng.randint(lo, hi))
+
+
+_WIDE_NEIGHBOURS = ['~', '~~', '1', '40', 'aaaa', '    ', '\x1b', '\x1b[', '"', '\\', '\\\\', '[1m', '{', ':', 'e', '@']
+
+
+def gen_wide_piece(rng):
+    c = gen_wide_char(rng)
+    r = rng.random()
+    if r < 0.3:
+        return c
+    if r < 0.5:
+        return c * rng.choice([2, 3, 4, 4, 5, 9, 10, 11, 30])
+    if r < 0.65:
+        return c + gen_wide_char(rng)
+    n = rng.choice(_WIDE_NEIGHBOURS)
+    if n == 'e':
+        return c + n            # never a piece that starts with e: the part before may end in a backslash
+    return rng.choice([n + c, c + n, n + c + n])
+
+
 def gen_string(rng, mode):
     r = rng.random()
     if r < 0.12:
@@ -73,6 +351,8 @@ def gen_string(rng, mode):
             parts.append(rng.choice(RUN_CHARS) * rng.randint(1, 3))
         elif mode == 'full' and q < 0.55:
             parts.append(rng.choice(BAD_FRAGS))
+        elif q >= 0.88:
+            parts.append(gen_wide_piece(rng))       # any class of code point JSON can carry
         else:
             parts.append(rng.choice(CLEAN_FRAGS))
     return ''.join(parts)
@@ -340,6 +620,11 @@ def string_sig(s, value_position=True):
     if value_position and s in ('f{', '\\e['):
         # fromjson() hands every string value starting with "f{" or a literal "\e[" to Style.from_raw
         return 'roundtrip/fromjson:style-prefix-string-sniffed-as-style'
+    if len(s) == 1 and _CP_ANY.match(s):
+        # the minimal failing text is ONE character beyond printable ASCII: the mechanism is that character
+        # class (the message names the code point)
+        classes = [c for c, rx in CP_CLASS_RES.items() if rx.match(s)]
+        return 'roundtrip/single-character:' + ('+'.join(classes) if classes else 'other-non-ascii')
     return None
 
 
@@ -497,9 +782,16 @@ def stress_payload(sender: str, seq: int):
         pad = _block()[h % 512: h % 512 + (h >> 8) % 400]
     elif kind < 45:
         pad = 'é' * (4 + h % 9) + '~' * (h % 5) + ' ' * (h % 13)
+    elif kind < 60:
+        pad = wide_pad(h >> 7)           # a (code point x context) text of the table
     else:
         pad = ''
     return {'s': sender, 'n': seq, 'pad': pad}
+
+
+def stress_has_table_text(sender: str, seq: int) -> bool:
+    h = int.from_bytes(hashlib.blake2b(f'{sender}/{seq}'.encode(), digest_size=4).digest(), 'big')
+    return seq != 7 and 45 <= h % 100 < 60
 
 
 def now() -> int:
